@@ -309,7 +309,7 @@ static void Damage(const Args& a, bool trunc)
 	l_L->OpenLogFile();
 }
 VOP(rl_trunc) { Damage(a, true); }
-VOP(rl_corrupt) { Damage(a, false); }
+VOP(rl_corrupt) { Damage(a, false); if (a.num("lax", 0)) Out("rl_corrupt lax"); }
 
 VOP(rl_ls)
 {
